@@ -176,7 +176,7 @@ def check_case(ref, W, fs, s, baseline=None):
     from spil import Sid
     sid = Sid(s)
     typed_direct = typed
-    if sid and not sid.is_search() and not W.ref.is_search_text(s) and "?" not in sid.string and sid.string.split("/")[-1] not in W.ref.alias:
+    if sid and not sid.is_search() and not W.ref.is_search_text(s) and "?" not in s and s.split("/")[-1] not in W.ref.alias:
         typed_direct = [(sid.type, sid.string)]
     exp_p, same_pos = W.store.do_find("paths", typed_direct)
     exp_a, _ = W.store.do_find("all", typed)
